@@ -32,7 +32,9 @@ func CreateUnknownBox(name string, size uint64, payload []byte) *UnknownBox {
 
 // DecodeUnknownSR - decode an unknown box
 func DecodeUnknownSR(hdr BoxHeader, startPos uint64, sr bits.SliceReader) (Box, error) {
-	return &UnknownBox{hdr.Name, hdr.Size, sr.ReadBytes(hdr.payloadLen())}, sr.AccError()
+	// The box is written back with a normal 8-byte header, so the size must not include a 16-byte large-size header
+	size := uint64(boxHeaderSize + hdr.payloadLen())
+	return &UnknownBox{hdr.Name, size, sr.ReadBytes(hdr.payloadLen())}, sr.AccError()
 }
 
 // Type - return box type
